@@ -206,6 +206,19 @@ ShiftDb(db, off)   == {[x EXCEPT !.run = x.run + off] : x \in db}
 ShiftQuery(q, off) == [q EXCEPT !.run = ShiftExpr(q.run, off)]
 Width(n) == IF n < 10 THEN 1 ELSE IF n < 100 THEN 2 ELSE 3
 
+(* ---- (c) histories: the database changes between the searches ----      *)
+(* The property quantifies over histories: one process issues searches     *)
+(* while entries are stored (a later run), removed (dawgie.db.remove) or   *)
+(* the database is closed and another one opened.  Every search is judged  *)
+(* against the database AS IT IS when the search is made, whatever was     *)
+(* asked before:  FindOK(Match(DbAfter(prefix), q), ...).  HApply is the   *)
+(* effect of one step on the set of primary entries.                       *)
+HMutations == {"Store", "Remove", "Reopen"}
+HApply(db, ev, xs) == CASE ev = "Store"  -> db \cup xs
+                        [] ev = "Remove" -> db \ xs
+                        [] ev = "Reopen" -> xs
+                        [] OTHER         -> db
+
 (* ---- the bounded query space ----                                       *)
 NameChoices(d) ==
     LET n == DbNames[d]
